@@ -102,7 +102,7 @@ func genCase(t *rapid.T) schedCase {
 	return sc
 }
 
-const watchdog = 30 * time.Second
+const watchdog = 12 * time.Second
 
 func check(c schedCase) *vlib.Failure {
 	s, err := mx.NewSorter(c.H)
